@@ -1839,7 +1839,13 @@ impl StorageEngine {
                         Some(current_bytes) => {
                             let current_str = String::from_utf8_lossy(current_bytes);
                             match current_str.parse::<i64>() {
-                                Ok(current) => current + increment,
+                                // An increment that leaves the i64 range is refused, not wrapped
+                                Ok(current) => match current.checked_add(increment) {
+                                    Some(v) => v,
+                                    None => return Err(FerrousError::Command(CommandError::Generic(
+                                        "increment or decrement would overflow".to_string()
+                                    ))),
+                                },
                                 Err(_) => return Err(FerrousError::Command(CommandError::NotInteger)),
                             }
                         }
